@@ -13,7 +13,10 @@ from vf import gen, hist, repo_root
 from vf.zygote import Client
 
 STEPS = ["call", "call", "call", "edit_efth", "edit_dir", "edit_freq", "edit_dir_via_coords", "edit_freq_via_coords", "edit_values_inplace", "partition_other", "partition_transposed",
-         "partition_same_size", "unknown_stat", "crsd_other", "reader", "attr_lookup", "call_on_copy", "dataset_accessor_touch"]
+         "partition_same_size", "ptm12_same_size_other_grid", "ptm12_same_size_other_grid", "fit", "unknown_stat", "crsd_other", "reader", "attr_lookup", "call_on_copy", "dataset_accessor_touch"]
+
+
+PTM_WIND = (14.0, 200.0, 30.0)      # fixed wind speed / direction / depth shared by history and observed ptm1/ptm2
 
 
 def mk_obs(rng, f, th):
@@ -226,6 +229,26 @@ def do_step(step, rng, xr, wavespectra, attrs, obj, f, th, lnames, lsizes, sampl
         tt = np.arange(shape[1]) * (360.0 / shape[1])
         other = gen.make_da(gen.spectrum(rng, ff, tt, "multimodal")[0], ff, tt)
         other.spec.partition.ptm3(parts=2).values
+    elif step == "ptm12_same_size_other_grid":
+        # caches keyed on too little: same number of frequencies / directions, same end points,
+        # same depth and wind as the observed ptm1/ptm2 call - but another grid in between
+        nf, nd = obj.sizes["freq"], obj.sizes["dir"]
+        fo = np.sort(np.asarray(obj["freq"].values, dtype="float64"))
+        ff = np.linspace(fo[0], fo[-1], nf) if rng.random() < 0.5 else np.geomspace(fo[0], fo[-1], nf)
+        if np.allclose(ff, fo):
+            ff = fo[0] + (fo[-1] - fo[0]) * np.linspace(0, 1, nf) ** 1.5
+        tt = np.arange(nd) * (360.0 / nd)
+        other = gen.make_da(gen.spectrum(rng, ff, tt, "multimodal")[0], ff, tt)
+        for m in ("ptm1", "ptm2"):
+            getattr(other.spec.partition, m)(xr.DataArray(PTM_WIND[0]), xr.DataArray(PTM_WIND[1]), xr.DataArray(PTM_WIND[2]), swells=2).values
+    elif step == "fit":
+        ff = np.linspace(0.04, 0.4, 20)
+        tt = np.arange(8) * 45.0
+        other = gen.make_da(np.array([gen.spectrum(rng, ff, tt, "smooth")[0], np.zeros((20, 8))]), ff, tt, ["time"], [2])
+        try:
+            (other.spec.fit_jonswap() if rng.random() < 0.5 else other.spec.fit_gaussian()).load()
+        except Exception:
+            pass
     elif step == "unknown_stat":
         try:
             obj.spec.stats(["hs", str(rng.choice(["nope", "hsig", "tpeak"]))])
